@@ -70,6 +70,26 @@ for n in (3, 4):
                         viol["solve"].append({"K": Ksym.tolist(), "f": f.tolist(), "got": x.tolist(), "want": want.tolist()})
                 except Exception as e:
                     viol["solve"].append({"K": Ksym.tolist(), "raised": "%s: %s" % (type(e).__name__, e)})
+# structured matrices whose columns cancel (difference / spring operators): "null column" means no stored non-zero entry, not "entries add up to zero"
+for n in (5, 8):
+    T = 2*np.eye(n) - np.eye(n, k=1) - np.eye(n, k=-1)
+    for Kd in (T, T.dot(T)):
+        Kp = np.zeros((n + 2, n + 2)); Kp[:n, :n] = Kd            # plus two amplitudes without stiffness
+        n_cases += 1
+        try:
+            out_ = S.remove_null_cols(csr_matrix(Kp), csr_matrix(2*Kp), silent=True)
+            if list(out_[-1]) != list(range(n)) or not np.allclose(out_[0].toarray(), Kd) or not np.allclose(out_[1].toarray(), 2*Kd):
+                viol["remove_null_cols"].append({"K": Kp.tolist(), "used_returned": [int(x) for x in out_[-1]], "used_expected": list(range(n))})
+        except Exception as e:
+            viol["remove_null_cols"].append({"K": Kp.tolist(), "raised": "%s: %s" % (type(e).__name__, e)})
+        f = np.arange(1., n + 3.)
+        try:
+            x = S.solve(csr_matrix(Kp), f.copy(), silent=True)
+            want = np.zeros(n + 2); want[:n] = np.linalg.solve(Kd, f[:n])
+            if not np.allclose(x, want, rtol=1e-9, atol=1e-11):
+                viol["solve"].append({"K": Kp.tolist(), "f": f.tolist(), "got": x.tolist(), "want": want.tolist()})
+        except Exception as e:
+            viol["solve"].append({"K": Kp.tolist(), "raised": "%s: %s" % (type(e).__name__, e)})
 out = {"cases": n_cases, "violations": {k: v[:2] for k, v in viol.items()}, "counts": {k: len(v) for k, v in viol.items()}}
 '''
 
